@@ -133,6 +133,33 @@ class Noh2EOS(Obligation):
         cx.eq('p=(gamma-1)*rho*e', cx['pressure'], (g - 1) * cx['density'] * cx['specific_internal_energy'])
 
 
+class GuderleyEOS(Obligation):
+    def __init__(self, n, gamma):
+        from . import guderley_common as G
+        self.G = G
+        self.n, self.gamma = n, gamma
+        self.id = 'C03.guderley.n%d.gamma=%s' % (n, gamma)
+        self.m = H.mod(G.GM)
+        self.modules = [self.m]
+        self.extra_shim = G.shim_extra()
+        self.functions = [self.m.state]
+        self.bounds = 'r, rho0, similarity exponent lambda, reflected-shock position B, similarity coordinate x symbolic; gamma fixed; solve_ivp replaced by fresh end values; every branch of state() = path'
+        self.skip_validation = True
+
+    def build(self, mk):
+        out = self.G.run_state(mk, self.n, self.gamma)
+        out['_gamma'] = K(mk, self.gamma)
+        return out
+
+    def domain(self, V):
+        return [T.gt(V('r'), T.ZERO), T.gt(V('rho0'), T.ZERO), T.gt(V('lam'), T.ONE), T.gt(V('B'), T.ZERO), T.ne(V('x'), T.ZERO)]
+
+    def claims(self, cx):
+        g = cx['_gamma']
+        cx.eq('p=(gamma-1)*rho*e', cx['pressure'], (g - 1) * cx['density'] * cx['specific_internal_energy'])
+        cx.eq('c^2=gamma*p/rho', cx['sound_speed'] * cx['sound_speed'] * cx['density'], g * cx['pressure'])
+
+
 def obligations(tier):
     obs = []
     for g in (1, 2, 3):
@@ -142,4 +169,7 @@ def obligations(tier):
     for name, spec in H.COG.items():
         for g in spec['geoms']:
             obs.append(CogEOS(name, g))
+    for n in (2, 3):
+        for gam in ([Fraction(7, 5), Fraction(3)] if tier == 'quick' else H.G_FULL):
+            obs.append(GuderleyEOS(n, gam))
     return obs
